@@ -167,10 +167,13 @@ func decodeStringValue(reader ByteRuneReader, flag int32) (string, error) {
 		if err != nil {
 			return "", err
 		}
-		if newLength < length {
+		if newLength <= cap(buf) {
 			buf = buf[:newLength]
-			length = newLength
+		} else {
+			// a later chunk may be longer than the first one
+			buf = make([]rune, newLength)
 		}
+		length = newLength
 	}
 
 	return string(byteBuf.Bytes()), nil
